@@ -231,10 +231,12 @@ def run_clf(desc):
     classes_none = bool(desc.get("classes_none")) and not multi and name not in ("sliding", "sliding_pwc")      # (inferred classes of a sliding window are those of the window, not of all y)
     if classes_none:
         cm = None
+    windowed = name in ("sliding", "sliding_pwc") and (desc["seed"] >> 9) % 2 == 1
 
     def run(y, ml_, classes_):
         nonlocal comp
-        clf = factory(None if classes_none else list(classes_), ml_, cm, 5)
+        kw_ = {"only_labeled": True, "window_size": 4} if windowed else {}
+        clf = factory(None if classes_none else list(classes_), ml_, cm, 5, **kw_)
         comp = type(clf).__name__ + ("(%s)" % type(clf.estimator).__name__ if hasattr(clf, "estimator") else "")
         if multi and desc.get("explicit_member_classes") and hasattr(clf, "estimators"):
             for _, est in clf.estimators:
@@ -242,7 +244,16 @@ def run_clf(desc):
         steps.begin()
         try:
             fit = clf.partial_fit if (path == "partial_fit" and hasattr(clf, "partial_fit")) else clf.fit
-            if sw is not None:
+            if windowed:
+                # a small window that keeps labelled samples only, filled by fit and several partial_fit calls on chunks
+                # that contain unlabelled samples
+                for a in range(0, len(X), 3):
+                    f_ = clf.fit if a == 0 else clf.partial_fit
+                    if sw is not None:
+                        f_(X[a:a + 3], y[a:a + 3], sample_weight=sw[a:a + 3])
+                    else:
+                        f_(X[a:a + 3], y[a:a + 3])
+            elif sw is not None:
                 try:
                     fit(X, y, sample_weight=sw)
                 except TypeError:
@@ -269,7 +280,7 @@ def run_clf(desc):
             errs[nm] = "%s: %s" % (type(ex).__name__, str(ex)[:160])
     contracts.count("C09.encoding-pair-oracle")
     ctx = "clf=%s enc=%s n=%d cost=%s weights=%s member_classes=%s path=%s classes=%s" % (
-        name, desc["enc"], n, cm is not None, sw is not None, desc.get("explicit_member_classes"), path, "None" if classes_none else "given")
+        name, desc["enc"], n, cm is not None, sw is not None, desc.get("explicit_member_classes"), "windowed-chunks" if windowed else path, "None" if classes_none else "given")
     if len(errs) == 1:
         nm = next(iter(errs))
         viol.append({"component": comp, "kind": "raises-under-one-encoding-only:%s" % ("reference" if nm == "nan" else "non-default"),
